@@ -48,3 +48,51 @@ Proof. intros H Hk. unfold get_enum in H. destruct (find_edge e d) as [j|] eqn:F
 (* create_lattice stores a cell with negative key reversed and under the absolute key *)
 Theorem lattice_cells_keys st : map fst (lattice_cells st) = map (fun kc => Z.abs (fst kc)) (tc st).
 Proof. unfold lattice_cells. rewrite map_map. reflexivity. Qed.
+
+(* ---------------------------------------------------------------- the vertex list of a region is the doubled list of its corner numbers *)
+Fixpoint dbl {A} (a : A) (l : list A) : list A := match l with [] => [] | p :: t => a :: p :: dbl p t end.
+(* number of a point in a vertex dictionary *)
+Definition numbered (vs : list (Z * pt)) (c : pt) (n : Z) : Prop := find_vertex c vs = Some n.
+
+Lemma region_edges_cons2 a b t vs es : region_edges (a :: b :: t) vs es =
+  let '(n1, vs1) := get_vertex_number a vs in
+  let '(n2, vs2) := get_vertex_number b vs1 in
+  let '(en, es1) := get_enum (n1, n2) es in
+  let '(ens, vlist, vs3, es2) := region_edges (b :: t) vs2 es1 in
+  (en :: ens, n1 :: n2 :: vlist, vs3, es2).
+Proof. reflexivity. Qed.
+
+Lemma region_edges_vlist : forall corners vs es ens vlist vs' es',
+  region_edges corners vs es = (ens, vlist, vs', es') ->
+  (forall w j, find_vertex w vs = Some j -> find_vertex w vs' = Some j) /\
+  match corners with
+  | [] => vlist = []
+  | c0 :: rest => exists n0 ns, length ns = length rest /\ vlist = dbl n0 ns /\
+                  (rest <> [] -> numbered vs' c0 n0) /\ Forall2 (numbered vs') rest ns
+  end.
+Proof.
+  induction corners as [|a t IH]; intros vs es ens vlist vs' es' H.
+  - cbn in H. inversion H; subst. split; [auto|reflexivity].
+  - destruct t as [|b t'].
+    + cbn in H. inversion H; subst. split; [auto|]. exists 0, []. repeat split; [congruence|constructor].
+    + rewrite region_edges_cons2 in H.
+      destruct (get_vertex_number a vs) as [n1 vs1] eqn:G1.
+      destruct (get_vertex_number b vs1) as [n2 vs2] eqn:G2.
+      destruct (get_enum (n1, n2) es) as [en es1] eqn:GE.
+      destruct (region_edges (b :: t') vs2 es1) as [[[ens0 vl0] vs3] es2] eqn:R.
+      injection H as E1 E2 E3 E4. subst ens vlist vs' es'.
+      destruct (vertex_interning a vs n1 vs1 G1) as [F1 [K1 _]].
+      destruct (vertex_interning b vs1 n2 vs2 G2) as [F2 [K2 _]].
+      destruct (IH vs2 es1 ens0 vl0 vs3 es2 R) as [K3 Hshape].
+      split; [intros w j Hw; apply K3, K2, K1, Hw|].
+      destruct Hshape as [m0 [ms [Hlen [Hvl [Hm0 Hms]]]]].
+      assert (Fa : numbered vs3 a n1) by (apply K3, K2, F1).
+      assert (Fb : numbered vs3 b n2) by (apply K3, F2).
+      exists n1, (n2 :: ms). split; [cbn [length]; now rewrite Hlen|]. split.
+      * (* the next step starts at the number b received in this step *)
+        cbn [dbl]. f_equal. f_equal. rewrite Hvl. destruct t' as [|c t''].
+        -- destruct ms; [reflexivity|discriminate].
+        -- destruct ms as [|m1 ms']; [discriminate|]. cbn [dbl]. f_equal.
+           specialize (Hm0 ltac:(discriminate)). unfold numbered in Hm0, Fb. congruence.
+      * split; [intros _; exact Fa|]. constructor; [exact Fb|exact Hms].
+Qed.
